@@ -166,6 +166,18 @@ def table(ctx, n):
         # "hosts": which bucket the LFU eviction picks among equal minima depends on Go's map order: sizes only
 
 
+def firstcontact(ctx, n):
+    """many goroutines contacting a brand-new host at once must share one bucket"""
+    lines = [json.dumps({"op": "firstcontact", "hosts": 30, "workers": ctx.rng.choice([4, 8, 16])}) for _ in range(n)]
+    rc, out, err = core.run_impl("rl", lines, timeout=600)
+    for l, a in zip(lines, out):
+        ctx.case("fc" + l + str(ctx.rng.random()), True)
+        ctx.count("first-contact:" + a.split(" ")[0])
+        if not a.startswith("ok"):
+            ctx.violation("concurrent first contacts of a new host released more than its capacity at once: " + a,
+                          {"domain": "rl", "firstcontact": json.loads(l), "impl": a})
+
+
 def waitreal(ctx, n):
     """a few sequences through the real blocking Wait() (virtual clock advanced in 50 ms steps)"""
     r = ctx.rng
@@ -205,6 +217,7 @@ def run(ctx):
     run_seqs(ctx, seqs)
     table(ctx, 2000 if ctx.thorough() else 100)
     waitreal(ctx, 40 if ctx.thorough() else 2)
+    firstcontact(ctx, 20 if ctx.thorough() else 2)
     ctx.sample(seqs[len(cp)][:12])
     ctx.assumptions += ["float64 arithmetic of the bucket vs exact rationals in the model: decisions compared exactly except within 1e-6 of "
                         "the `tokens >= 1` boundary (counted), numbers with relative tolerance 1e-9",
@@ -213,5 +226,7 @@ def run(ctx):
 
 def replay(ctx, doc):
     rp = doc.get("replay", doc)
+    if "firstcontact" in rp:
+        firstcontact(ctx, 3)
     if "ops" in rp:
         run_seqs(ctx, [rp["ops"]])
